@@ -155,6 +155,10 @@ class CFG:
             c = self.ctx[i]
             if c.kind == 'handlers':
                 for hclasses, hnode in c.handlers:
+                    if hnode.meta.get('uncertain'):
+                        self._edge(src, hnode, 'exc', set(classes))
+                        hnode.meta.setdefault('caught', set()).update(classes)
+                        continue
                     for x in sorted(classes):
                         if any(issub(x, h) for h in hclasses):
                             self._edge(src, hnode, 'exc', {x})
@@ -465,12 +469,15 @@ class CFG:
         entry_frontier = self.cur
         for h in s.handlers:
             classes = model.parse_handler_classes(h.type, self.res.path)
+            uncertain = False
             if classes is None:
-                raise AnalysisError(
-                    f'cannot resolve exception class in handler at {self.unit.rel}:{h.lineno}')
+                # class given by a run-time value (`except only as e`): may
+                # catch anything, surely catches nothing
+                classes = {ANY}
+                uncertain = True
             self.cur = []
             self._trys = old_trys + ((s, 'handler'),)
-            hn = self._node('except', h, h.lineno, classes=frozenset(classes), name=h.name)
+            hn = self._node('except', h, h.lineno, classes=frozenset(classes), name=h.name, uncertain=uncertain)
             hnodes.append((classes, hn))
         self.cur = entry_frontier
         if hnodes:
